@@ -250,8 +250,10 @@ def run(ctx):
             status, detail = 'obligation-failed', out[-1200:]
     except Shape as e:
         status, detail = 'shape-not-recognised', str(e)
-    except (OSError, UnicodeDecodeError) as e:
-        status, detail = 'shape-not-recognised', 'cannot read src/parser.rs: %s' % e
+    except build.BuildError:
+        raise
+    except Exception as e:                       # whatever the source looks like, the translator must not take the check down
+        status, detail = 'shape-not-recognised', 'the translator could not read the source: %s: %s' % (type(e).__name__, e)
     info['status'] = status
     if detail:
         info['detail'] = detail[-600:]
@@ -261,7 +263,7 @@ def run(ctx):
     # the search runs in every case
     try:
         lits = tokenizer_literals(parser_rs)
-    except (OSError, UnicodeDecodeError):
+    except Exception:
         lits = []
     texts = candidates(MODEL_KEYS + lits)
     hbin = build.harness(ctx, 'release')
